@@ -182,6 +182,16 @@ def gen_history(rng, backend, big=False, multi=True, portable=False):
                     continue
                 k = min(kmax, rng.choice([1, 1, 1, 2, 2, 3]))
                 ev = {"e": "del", "ms": [_ref(rng, i) for i in rng.sample(live, k)]}
+            elif x < 0.60 and backend == "bosonic" and rng.random() < 0.22:
+                # ancilla-assisted gate (measurement-based squeezing by 0: the identity on the data, but the single-shot
+                # map adds, measures and removes an internal ancilla mode)
+                anc = rng.choice(["shot", "shot", "avg"])
+                if rng.random() < 0.2:
+                    kind, refs = _bad_refs(rng, spec, 1)
+                    refs = refs[:1]          # MSgate acts on one subsystem (the selection may happen to be valid then)
+                    ev = {"e": "use", "ms": refs, "k": 0, "deps": [], "anc": anc, "bad": kind}
+                else:
+                    ev = {"e": "use", "ms": [_ref(rng, rng.choice(live))], "k": 0, "deps": [], "anc": anc}
             elif x < 0.60 and rng.random() < 0.12:
                 # All(Xgate) on several modes (now and then on none, or on a rejected selection)
                 z = rng.random()
@@ -267,6 +277,8 @@ def gen_history(rng, backend, big=False, multi=True, portable=False):
             probe.append({"t": "del", "ms": rng.sample(range(created + 1), k)})
         if len(live) >= 2:
             probe.append({"t": "del", "ms": rng.sample(live, rng.choice([1, 2]))})
+        if backend == "bosonic":
+            probe += [{"t": "ms", "ms": [m]} for m in range(created + 2)]
         # state(modes=[...]): SUBSYSTEM INDICES on every back end — live ones in any order, cyclic orders of >= 3,
         # and requests naming a deleted or a never created index (must be refused)
         modes = []
@@ -451,6 +463,9 @@ def _probe(eng, pr):
                 b.beamsplitter(0.0, 0.0, ms[0], ms[1])
             return {"r": "ok", "gm": [int(x) for x in b.get_modes()]}
         c = copy.deepcopy(b)
+        if pr["t"] == "ms":
+            c.mb_squeeze_single_shot(ms[0], 0.0, 0.0, 1.2, 0.99)
+            return {"r": "ok", "gm": [int(x) for x in c.get_modes()]}
         c.del_mode(list(ms))
         return {"r": "ok", "gm": [int(x) for x in c.get_modes()]}
     except Exception as ex:  # noqa: BLE001
@@ -514,7 +529,10 @@ def run_real(sf, hist):
                                 dp = pars.get((id(prog), d.get("o")))
                                 par = par * (4 * (dp if dp is not None else _mk_ref(prog, d).par))
                             plain = not ev.get("deps")
-                            if ev.get("all"):
+                            if ev.get("anc"):
+                                avg_ = ev["anc"] == "avg"
+                                shared(("MS", avg_), lambda: ops.MSgate(0.0, 0.0, r_anc=1.2, eta_anc=0.99, avg=avg_)) | reg
+                            elif ev.get("all"):
                                 ops.All(shared(("X", ev["k"]), lambda: ops.Xgate(par))) | reg
                             elif len(reg) == 1:
                                 (shared(("X", ev["k"]), lambda: ops.Xgate(par)) if plain else ops.Xgate(par)) | reg
@@ -563,6 +581,8 @@ def run_real(sf, hist):
                 o["samples"] = {int(k): [float(np.real(np.ravel(v[-1])[0])), len(v)] for k, v in sd.items()}
                 o["samples_shape"] = list(np.shape(res.samples))
                 o["skeys"] = sorted(int(k) for k in sd)
+                if getattr(res, "ancillae_samples", None) is not None:
+                    o["anc_keys"] = sorted(int(k) for k in res.ancillae_samples)
             except Exception as ex:  # noqa: BLE001
                 o["samples"] = {"err": type(ex).__name__, "msg": str(ex)[:200]}
             last_run = prog
